@@ -3,7 +3,9 @@ package c16
 
 import (
 	"fmt"
+	"os"
 	"sort"
+	"strconv"
 	"testing"
 
 	"github.com/welllog/golib/dsz"
@@ -41,7 +43,7 @@ func newBits(b *setz.Bits) *set {
 		seq := b.All()
 		n := 0
 		seq(func(uint) bool { n++; return n < 2 }) // a first, interrupted pass over the same sequence value
-		if b.Cap() > 1<<22 { // sets with members around 2^31: every pass scans 2^25 words
+		if b.Cap() > 1<<22 {                       // sets with members around 2^31: every pass scans 2^25 words
 			early(f)
 			return
 		}
@@ -169,6 +171,9 @@ func genHuge(t *rapid.T) hugeCase {
 func runHuge(c hugeCase, r *pb.Rec) error {
 	if c.Base > 1<<32+1000 || len(c.Extra) > 16 {
 		return nil
+	}
+	if sh, _ := strconv.Atoi(os.Getenv("VERIF_SHARD")); sh%4 != 0 && os.Getenv("VERIF_REPLAY") == "" {
+		return nil // every case allocates and scans 2^25 words: only every fourth shard runs them
 	}
 	var p pair
 	switch c.Kind {
